@@ -18,7 +18,7 @@ pub static SHUTDOWN: Scenario = Scenario {
     id: "C08",
     name: "c08-shutdown",
     run,
-    quick_runs: 5000,
+    quick_runs: 12_000,
     thorough_runs: 150_000,
     rule: "one run = 2-4 real Networks; at a PRNG instant one of them is shut down (explicitly, twice concurrently, or by dropping its last handle) with a PRNG mix of in-flight work (RPCs in both directions with sleeping handlers, a handler holding an upgraded NetworkRef, explicit dials to dead addresses, background dials, an inbound handshake in progress over a slow link, concurrent and subsequent API calls), or its endpoint driver is killed (fatal recv error / aborted task), or the runtime is torn down with handles alive; distinct = distinct order signature (in-flight mix, mode, fault, outcomes); non-trivial = every run (something is always in flight or torn down)",
     real: super::REAL_NET,
